@@ -25,6 +25,10 @@ def const_tree(c):
             if "str" in v:
                 return ("const", v["str"])
             if "zst" in v:
+                t = c.get("ty")
+                if isinstance(t, dict) and "fndef" in t and [a for a in t.get("args", []) if a != "'_"]:
+                    # function item with its generic arguments (e.g. Into::into::<u8, RawU1> handed to map)
+                    return ("const", "fn:" + ty_str(t), tuple(ty_str(a) for a in t["args"] if a != "'_"))
                 return ("const", "fn:" + ty_str(c["ty"]))
             if "fbits" in v:
                 return ("const", "fbits:%d" % v["fbits"])
